@@ -101,6 +101,7 @@ func main() {
 		"perms.v":    renderPerms(perms),
 		"nondet.v":   renderNondet(sites),
 		"genesis.v":  renderGenesis(gmods),
+		"kernels.v":  analyseKernels(w),
 	}
 	names := make([]string, 0, len(files))
 	for n := range files {
@@ -133,7 +134,7 @@ var outDir string
 func fatal(err error) {
 	fmt.Fprintln(os.Stderr, "translator: error:", err)
 	if outDir != "" {
-		for _, n := range []string{"handlers.v", "perms.v", "nondet.v", "genesis.v"} {
+		for _, n := range []string{"handlers.v", "perms.v", "nondet.v", "genesis.v", "kernels.v"} {
 			os.Remove(filepath.Join(outDir, n))
 		}
 		fmt.Fprintln(os.Stderr, "translator: removed stale tables from", outDir)
